@@ -104,20 +104,21 @@ type HarnessResult struct {
 }
 
 type RunConfig struct {
-	Workers      int
-	Solvers      []string // first is primary
-	MaxPaths     int
-	MaxSteps     int // per path
-	PermuteMaps  bool
-	Params       map[string]int // tier parameters readable by harnesses through vfParam
-	FixedModel   map[string]any // concrete mode: inputs fixed to these values
-	Deadline     time.Time
-	KnownActive  map[string]bool // known-finding classes with status "known"
-	Trace        bool
-	Random       *rand.Rand // concrete-random mode (differential twin)
-	SampleModels int        // number of path models to keep for the differential twin
-	Seed         int64
-	wantSample   func() bool
+	Workers       int
+	Solvers       []string // first is primary
+	MaxPaths      int
+	MaxSteps      int // per path
+	PermuteMaps   bool
+	PermuteSingle bool           // at most one map range per path deviates from the reference order
+	Params        map[string]int // tier parameters readable by harnesses through vfParam
+	FixedModel    map[string]any // concrete mode: inputs fixed to these values
+	Deadline      time.Time
+	KnownActive   map[string]bool // known-finding classes with status "known"
+	Trace         bool
+	Random        *rand.Rand // concrete-random mode (differential twin)
+	SampleModels  int        // number of path models to keep for the differential twin
+	Seed          int64
+	wantSample    func() bool
 }
 
 type Engine struct {
@@ -387,6 +388,7 @@ type path struct {
 
 	intRanges  map[*Term][2]int64
 	decided    map[*Term]bool
+	permUsed   bool
 	lastBranch bool
 	pins       map[*Term]int64
 }
